@@ -1,6 +1,7 @@
 (* C10 - Progress: caller-frame steps advance, no state repeats, walks terminate.
    Every module kind of the model: no data, DWARF, PE (after the repairs of S9b and S9c). *)
-From FH Require Import Consts Word X86 A64 Unwinder X86Unw A64Unw X86Exec A64Exec X86Walk A64Walk.
+From FH Require Import Consts Word X86 A64 Unwinder X86Unw A64Unw X86Exec A64Exec X86Walk A64Walk FpChain WalkProgress.
+From Coq Require Import List. Import ListNotations.
 Open Scope N_scope.
 
 (* x86_64: every successful caller-frame step, whichever path served it (cache hit, computed
@@ -48,3 +49,86 @@ Theorem C10_caller_step_a64 : forall u c x rg m ra,
   ra <> 0 /\ asp rg < asp (o_regs _ _ (unwind_frame_a u c (RA x) rg m)).
 Proof. exact caller_step_progress_a64. Qed.
 Print Assumptions C10_caller_step_a64.
+
+(* ---------- whole walks through the iterator (Proofs/WalkProgress.v) ----------
+   [steps exec fallback cb u m it n it']: n calls to next(), every one of which yields a frame, lead
+   from iterator state it to it' (tied to iter_run, the function the correspondence executes, by
+   steps_iter_run). [caller_x it]: the iterator will unwind from the return address held in ip -
+   every state of a walk after its first two calls (C10_walk_reaches_caller_x86, _a64). *)
+Check steps_iter_run.
+
+Theorem C10_walk_reaches_caller_x86 : forall u m pc rg c it2,
+  steps exec_x fallback_rule cb_x86 u m (iter_new _ _ pc rg c) 2 it2 -> caller_x it2.
+Proof. exact walk_reaches_caller_x. Qed.
+Print Assumptions C10_walk_reaches_caller_x86.
+
+(* across the caller frames of one walk the stack pointer never decreases, and after n frames it
+   has advanced by at least n/2 *)
+Theorem C10_walk_sp_x86 : forall u m n it it',
+  caller_x it -> steps exec_x fallback_rule cb_x86 u m it n it' ->
+  caller_x it' /\ sp_of it + N.of_nat (n / 2) <= sp_of it'.
+Proof. exact walk_sp_x. Qed.
+Print Assumptions C10_walk_sp_x86.
+
+(* no (address, sp, fp) state is ever visited twice *)
+Theorem C10_walk_no_repeat_x86 : forall u m it i it1 j it2,
+  caller_x it ->
+  steps exec_x fallback_rule cb_x86 u m it i it1 -> steps exec_x fallback_rule cb_x86 u m it1 (S j) it2 ->
+  (addr_of it1, sp_of it1, bp_of it1) <> (addr_of it2, sp_of it2, bp_of it2).
+Proof. exact walk_no_repeat_x. Qed.
+Print Assumptions C10_walk_no_repeat_x86.
+
+(* consequently every walk terminates: with stack pointers of at most L (2^64 - 1 in the
+   implementation; the model's registers are unbounded, so the width is a premise), within
+   2 (L - sp) + 2 calls next() yields something other than a frame - Ok(None) or an error,
+   whatever the memory contains and whatever the unwind data says *)
+Theorem C10_walk_terminates_x86 : forall u m it L,
+  caller_x it ->
+  (forall k it', steps exec_x fallback_rule cb_x86 u m it k it' -> sp_of it' <= L) ->
+  exists k it1 r it2,
+    N.of_nat k <= 2 * (L - sp_of it) + 1 /\ steps exec_x fallback_rule cb_x86 u m it k it1 /\
+    iter_next_x u m it1 = (r, it2) /\ forall f, r <> Ok (Some f).
+Proof. exact walk_terminates_x. Qed.
+Print Assumptions C10_walk_terminates_x86.
+
+Theorem C10_walk_reaches_caller_a64 : forall u m pc rg c it2,
+  steps aexec afallback_rule cb_a64 u m (iter_new _ _ pc rg c) 2 it2 -> caller_a it2.
+Proof. exact walk_reaches_caller_a. Qed.
+
+(* aarch64: every caller frame advances the stack pointer *)
+Theorem C10_walk_sp_a64 : forall u m n it it',
+  caller_a it -> steps aexec afallback_rule cb_a64 u m it n it' ->
+  caller_a it' /\ asp_of it + N.of_nat n <= asp_of it'.
+Proof. exact walk_sp_a. Qed.
+Print Assumptions C10_walk_sp_a64.
+
+Theorem C10_walk_no_repeat_a64 : forall u m it i it1 j it2,
+  caller_a it ->
+  steps aexec afallback_rule cb_a64 u m it i it1 -> steps aexec afallback_rule cb_a64 u m it1 (S j) it2 ->
+  (aaddr_of it1, asp_of it1, afp_of it1) <> (aaddr_of it2, asp_of it2, afp_of it2).
+Proof. exact walk_no_repeat_a. Qed.
+Print Assumptions C10_walk_no_repeat_a64.
+
+Theorem C10_walk_terminates_a64 : forall u m it L,
+  caller_a it ->
+  (forall k it', steps aexec afallback_rule cb_a64 u m it k it' -> asp_of it' <= L) ->
+  exists k it1 r it2,
+    N.of_nat k <= L - asp_of it /\ steps aexec afallback_rule cb_a64 u m it k it1 /\
+    iter_next_a u m it1 = (r, it2) /\ forall f, r <> Ok (Some f).
+Proof. exact walk_terminates_a. Qed.
+Print Assumptions C10_walk_terminates_a64.
+
+(* the premises are met by real walks: a frame-pointer chain of three records, no modules *)
+Example C10_walk_example :
+  let m := mem_of_list [(100, 200); (108, 7001); (200, 300); (208, 7002); (300, 0); (308, 7003)] in
+  let u := mkunw mdata [] 0 in
+  exists it2 it4,
+    steps exec_x fallback_rule cb_x86 u m (iter_new _ _ 5000 (regs_new 5000 96 100) (cache_new rule)) 2 it2 /\
+    steps exec_x fallback_rule cb_x86 u m it2 2 it4 /\
+    sp_of it2 = 116 /\ sp_of it4 = 316 /\ addr_of it4 = 7003.
+Proof.
+  cbv zeta. eexists. eexists. split; [|split].
+  - apply steps_iter_run. split; [reflexivity|]. vm_compute. repeat constructor; eexists; reflexivity.
+  - apply steps_iter_run. split; [reflexivity|]. vm_compute. repeat constructor; eexists; reflexivity.
+  - vm_compute. repeat split; reflexivity.
+Qed.
